@@ -30,7 +30,14 @@ def Node.rename (n : Node) (name : String) : Node :=
   | .cls c => .cls { c with name := name }
   | .fn f => .fn { f with name := name }
 
+/-- ghost record of what the generator emits, in emission order: `(kind, API id)` with kind one of
+    `module`, `restub`, `class`, `endclass`, `fun`, `prop`, `attr`, `enum`, `moved`.  It does not
+    influence any text; theorems about "which declarations appear where, how often" are stated on it,
+    and the harness checks it against the declarations parsed out of the implementation's files. -/
+abbrev LogEntry := String × String
+
 structure St where
+  log : List LogEntry := []
   todos : List String := []
   imports : List String := []
   outside : List String := []
@@ -49,6 +56,8 @@ abbrev G := StateT St (Except PyErr)
 def throwG {α : Type} (e : PyErr) : G α := fun _ => .error e
 
 def addTodo (k : String) : G Unit := modify fun s => { s with todos := insertSet k s.todos }
+
+def logEmit (kind id : String) : G Unit := modify fun s => { s with log := s.log ++ [(kind, id)] }
 
 def indentation : String := Generated.indentation
 
@@ -526,7 +535,10 @@ def typeVarStrings (env : Env) (isMethod : Bool) : List TypeVar → G (List Stri
 def createFunctionString (env : Env) (f : Function) (indent : String := "") (isMethod : Bool := false)
     (inReexportModule : Bool := false) : G String := do
   if !isMethod && !inReexportModule then
-    if ← hasNodeShorterReexport f.name f.reexportedBy (.fn f) then return ""
+    if ← hasNodeShorterReexport f.name f.reexportedBy (.fn f) then
+      logEmit "moved" f.id
+      return ""
+  logEmit "fun" f.id
   let static := if f.isClassMethod || f.isStatic then "static " else ""
   if f.isClassMethod then addTodo "class_method"
   let funcParams ← createParameterString env f.params indent (!f.isStatic && isMethod)
@@ -542,6 +554,7 @@ def createFunctionString (env : Env) (f : Function) (indent : String := "") (isM
 
 /-- `_create_property_function_string` -/
 def createPropertyFunctionString (env : Env) (f : Function) (indent : String) : G String := do
+  logEmit "prop" f.id
   let camel := convertName f.name env.safe
   let ann := if camel != f.name then nameAnnotation f.name ++ " " else ""
   let docstring := sdsDocstringDescription f.doc.description indent
@@ -560,6 +573,7 @@ def isTypeVarType : Option AType → Bool
 def createAttribute (env : Env) (a : Attribute) (inner : String) : G (Option String) := do
   if !a.isPublic then return none
   if isTypeVarType a.type then return none
+  logEmit "attr" a.id
   let static := if a.isStatic then "static " else ""
   let camel := convertName a.name env.safe
   let ann := if camel != a.name then nameAnnotation a.name ++ "\n" ++ inner else ""
@@ -677,7 +691,10 @@ def createClassString (env : Env) : Nat → Class → String → Bool → G Stri
   | 0, _, _, _ => throwG .unsupported          -- out of fuel (never with fuel ≥ #classes + depth)
   | fuel + 1, c, indent, inReexportModule => do
     if !inReexportModule then
-      if ← hasNodeShorterReexport c.name c.reexportedBy (.cls c) then return ""
+      if ← hasNodeShorterReexport c.name c.reexportedBy (.cls c) then
+        logEmit "moved" c.id
+        return ""
+    logEmit "class" c.id
     let inner := indent ++ indentation
     let constructorInfo ← (if c.isAbstract then pure "" else do
       let p ← (match c.ctor with
@@ -714,6 +731,7 @@ def createClassString (env : Env) : Nat → Class → String → Bool → G Stri
       | some ctor => ctor.params
       | none => []
     let docstring := sdsDocstring env.safe c.doc.description indent ctorParams [] c.doc.examples
+    logEmit "endclass" c.id
     if classText == "" then pure (docstring ++ signature)
     else pure (docstring ++ signature ++ " {" ++ classText ++ indent ++ "}")
 /-- `_create_internal_class_string` -/
@@ -776,11 +794,13 @@ def createModuleString (env : Env) (m : Module) : G (String × String) := do
   let t1 ← createFunctions env inReexport m.functions
   let t2 ← createClasses env inReexport m.classes
   let t3 := String.join (m.enums.map fun e => "\n" ++ createEnumString env e ++ "\n")
+  modify fun s => { s with log := s.log ++ m.enums.map fun e => ("enum", e.id) }
   let imports ← createImportsString env
   pure (doc ++ header ++ imports ++ t1 ++ t2 ++ t3, packageInfo)
 
 /-- `StubsStringGenerator.__call__` -/
 def callGenerator (env : Env) (m : Module) : G (String × String) := do
+  logEmit "module" m.id
   setModuleId m.id
   modify fun s => { s with reexportModuleId := "", classGenerics := [], imports := [], todos := [] }
   createModuleString env m
@@ -800,6 +820,7 @@ def createReexportElements (env : Env) (moduleId : String) : List Node → G (Li
     modify fun s => { s with imports := [], classGenerics := [] }
     let moduleName := el.name
     setModuleId (moduleId ++ "/" ++ moduleName)
+    logEmit "restub" (moduleId ++ "/" ++ moduleName)
     let s ← get
     let packageInfo := joinWith "." (dropLast' (splitSlash (getModuleId s)))
     let header := packageHeader env packageInfo
